@@ -372,6 +372,42 @@ def rule_livefilters(program, ctx, prop=P, rid="C05.filters"):
             ctx.ok(rid, c, "every evaluated filter is also a live filter")
 
 
+def rule_schema(program, ctx, prop=P, rid="C05.schema"):
+    ctx.rule(
+        rid,
+        "stored and live matching compare tag values the same way (byte-wise): the `tags` table's name/value columns are plain sa.Text() in every definition "
+        "(get_metadata, alembic) - a collation (NOCASE), a case-folding type or a computed column makes the stored query match `Nostr` for `#t: [nostr]` while "
+        "BaseSubscription.check_event -> Event.has_tag still compares case-sensitively",
+        floor=2,
+    )
+    n = 0
+    for m in program.modules.values():
+        if not m.name.startswith("nostr_relay"):
+            continue
+        for c in ast.walk(m.tree):
+            if not (isinstance(c, ast.Call) and call_name(c).split(".")[-1] in ("Table", "create_table") and c.args and isinstance(c.args[0], ast.Constant) and c.args[0].value in ("tags", "tag")):
+                continue
+            fn_ = next((a for a in ancestors(c) if isinstance(a, (ast.FunctionDef, ast.AsyncFunctionDef))), None)
+            for col in c.args:
+                if isinstance(col, ast.Call) and call_name(col).split(".")[-1] == "Column" and col.args and isinstance(col.args[0], ast.Constant) and col.args[0].value in ("name", "value") and len(col.args) > 1:
+                    n += 1
+                    t = col.args[1]
+                    if isinstance(t, ast.Name) and fn_ is not None:
+                        b = [s_ for s_ in stores_of(fn_, t.id) if isinstance(s_, ast.Assign)]
+                        bad = [s_ for s_ in b if not (isinstance(s_.value, ast.Call) and call_name(s_.value).split(".")[-1] in ("Text", "String") and not s_.value.keywords and not s_.value.args)]
+                        okv = bool(b) and not bad
+                        shown = ast.unparse((bad or b or [t])[0])[:60]
+                    else:
+                        okv = isinstance(t, ast.Call) and call_name(t).split(".")[-1] in ("Text", "String") and not t.keywords and not t.args
+                        shown = ast.unparse(t)[:60]
+                    if okv:
+                        ctx.ok(rid, col, f"{m.name.split('.')[-1]}: tags.{col.args[0].value} is plain text")
+                    else:
+                        ctx.bad(finding_at(prop, rid, col, f"tags.{col.args[0].value} is declared as `{shown}`: the stored tag query no longer compares the way the live matcher does"))
+    if not n:
+        raise AnalysisError("definitions of the tags table not found")
+
+
 def run(program, ctx):
     from ..lib import rule_awaited
 
@@ -393,6 +429,9 @@ def run(program, ctx):
     c01.rule_tagindex(program, ctx, prop=P, rid="C05.tagindex")
     c13.rule_subid(program, ctx, prop=P, rid="C05.subid")
     c13.rule_cancel(program, ctx, prop=P, rid="C05.cancel")
+    rule_schema(program, ctx)
+    c13.rule_every_item_sent(program, ctx, prop=P, rid="C05.sender")
+    c13.rule_sender(program, ctx, prop=P, rid="C05.frame")
     from . import c07
 
     # `if changed: notify_all_connected` sits behind a context manager: one that swallows the body's exception broadcasts an event whose insert was rolled back
